@@ -31,6 +31,32 @@ func (c *c11ctx) ruleR4() {
 					r.Check(alt, "C11.R4", "hand-off in "+FuncName(q), p.InstrPos(in),
 						"the hand-off is one arm of a select that has another way out when the core loop is gone",
 						"select with the hand-off as its only arm blocks forever once the core loop has ended")
+					// when the select is retried in a loop, a timer arm must be armed again for every
+					// pass: a time.After / Timer channel made before the loop fires once, and from the
+					// second pass on the hand-off is again the only arm that can ever be ready
+					if sel.Blocking && InLoop(sel) {
+						for _, alt := range sel.States {
+							if alt.Dir != types.RecvOnly {
+								continue
+							}
+							mk := timerSource(alt.Chan)
+							if mk == nil {
+								continue
+							}
+							rearmed := InLoopWith(mk, sel) || mk.Block() == sel.Block()
+							if !rearmed {
+								// a Reset of the timer inside the loop also re-arms it
+								Instrs(q, func(x ssa.Instruction) {
+									if IsCallTo(x, "(*time.Timer).Reset") && (InLoopWith(x, sel) || x.Block() == sel.Block()) {
+										rearmed = true
+									}
+								})
+							}
+							r.Check(rearmed, "C11.R4", "time-out arm of the hand-off in "+FuncName(q)+" is re-armed on every pass", p.InstrPos(mk),
+								"the timer channel is made (or reset) inside the retry loop",
+								"the timer behind the alternative arm is created once before the retry loop and never reset: it fires a single time, after which the select can only proceed through the hand-off; a request pending when the core loop ends then blocks its caller forever")
+						}
+					}
 				}
 			}
 		}
@@ -266,4 +292,29 @@ func checkLockReentrancy(p *Prog, r *Report, rule string) {
 				"self-deadlock: "+bad+" (sync.Mutex is not re-entrant; the goroutine — the core loop when this runs in a request — blocks forever)")
 		}
 	}
+}
+
+// timerSource: ch is the channel of time.After(...) or the C field of a time.NewTimer(...) /
+// time.AfterFunc timer; returns the creating call.
+func timerSource(ch ssa.Value) ssa.Instruction {
+	for i := 0; i < 6; i++ {
+		switch x := ch.(type) {
+		case *ssa.Call:
+			if IsCallTo(x, "time.After") || IsCallTo(x, "time.NewTimer") {
+				return x
+			}
+			return nil
+		case *ssa.UnOp: // load of timer.C
+			ch = x.X
+		case *ssa.FieldAddr:
+			ch = x.X
+		case *ssa.Field:
+			ch = x.X
+		case *ssa.Phi:
+			return nil
+		default:
+			return nil
+		}
+	}
+	return nil
 }
